@@ -216,5 +216,29 @@ PROPERTIES['C10'] = {
     'unchecked': ['"dropped normally after the panic" is argued from the refusal preceding ManuallyDrop::new, not executed (no unwinding in Kani)'],
 }
 
+V_BUILDER = {'kind': 'verus', 'unit': 'builder'}
+V_NATIVE = {'kind': 'verus', 'unit': 'native'}
+
+PROPERTIES['C12'] = {
+    'level': 'model_checking',
+    'units': lambda tier: [V_BUILDER, V_LAYOUT, BX_SIMPLE],
+    'explanation': 'Builder invariant (ids are indices of an append-only collection, pending additions occur in no closed variant, pending '
+                   'removals are distinct members of the last variant) preserved by push / add_datum / remove_datum / close_record_variant_with / '
+                   'build, each extracted from /repo and verified by Verus; rejected requests leave the state equal (frame); close with nothing '
+                   'pending returns the last id and changes nothing; the membership equation is the `members` clause of the strategy contract.',
+    'unchecked': ['name lookup get_current_datum_definition_by_name / get_current_data / get_variant_datum_definition_by_name (iterator chains): '
+                  'assumed contract in Verus; Kani harnesses on them are kept under kani/builder but exceed the time box (15 GB, > 20 min) and are not part of the check',
+                  'native builder operations are one-line delegations to the generic builder (not extracted)'],
+}
+PROPERTIES['C18'] = {
+    'level': 'proof',
+    'units': lambda tier: [V_NATIVE],
+    'explanation': 'For add_datum, add_datum_allow_uninit, add_datum_override and copy_datum (extracted from /repo) Verus proves that the details '
+                   'handed to the inner builder are exactly the abstract resolver\'s answer (overrides applied field-wise; offset = usize::MAX): a body '
+                   'consulting the host\'s size_of/align_of fails the postcondition. The strategies read only recorded size/align (unit layout).',
+    'unchecked': ['second sentence of the property (type table answers what was registered, agrees with host, JSON round trip): BTreeMap<String,_> + serde_json, outside both verifiers',
+                  'add_dynamic_datum: AsRef<str> bound cannot be declared to this Verus; not under contract'],
+}
+
 PROPERTIES['C02'] = dict(PROPERTIES['C01'])
 PROPERTIES['C03'] = dict(PROPERTIES['C01'])
